@@ -20,6 +20,10 @@
                        completely before any byte of the later one;
          Delivered     a Write that returned success is received completely whenever the peer was
                        allowed to read to the end of the stream;
+         NoOverlap     the records of the direction are handed to the transport one at a time: two
+                       transport writes of the connection in flight at once mean that two records
+                       (sealed in a definite order) reach the byte stream in no definite order or
+                       interleaved - the direction's stream is no longer the connection's to preserve;
        from the peer (one writer at the peer, several reader goroutines may share the CUT):
          FromPeerRunOK every Read returns bytes of the peer's stream inside a payload, never a byte
                        that an earlier Read already returned, and (FloorOK) only bytes behind
@@ -69,6 +73,9 @@ RealTimeOK(recv, writes, before, r) ==
   \A v \in DOMAIN writes : before[v][r.w] => Complete(recv, writes, v)
 
 Delivered(recv, writes, w) == Complete(recv, writes, w)
+
+\* n = number of transport writes of the connection observed in flight at the same time
+NoOverlap(n) == n <= 1
 
 \* observation only: the runs of one write are adjacent in the received stream
 WriteAtomic(recv, w) ==
